@@ -264,8 +264,16 @@ impl Sys {
         // ... and so is everything else that follows: 7- and 8-bit forms of every sequence kind
         // (cut before the final RIS of the continuation, which would hide what came before)
         let cont = if with_continuation { &CONTINUATION[..CONTINUATION.len() - 3] } else { "" };
-        let _ = s.feed_str(cont);
-        let _ = r.feed_str(cont);
+        let ca = s.feed_str(cont).lines;
+        let cb = r.feed_str(cont).lines;
+        if with_continuation && ca != cb {
+            out.violate(
+                "C20",
+                "later-changes-reported-differently",
+                format!("{} then the continuation: changed lines {:?}, the continuation alone: {:?}", esc(inert), ca, cb),
+            );
+            return;
+        }
         if with_continuation && (obs(&s) != obs(&r) || s.dump() != r.dump()) {
             out.violate(
                 "C20",
@@ -629,8 +637,11 @@ fn foreign_pairs(ctx: &Ctx, rep: &mut Report) {
                         return Some(format!("{} , {} , {}: not where {} alone leaves the terminal (dump {} vs {})", esc(f[a]), esc(cmd), esc(f[b]), esc(cmd), esc(&vt.dump()), esc(&w.dump())));
                     }
                     let cont = &CONTINUATION[..CONTINUATION.len() - 3];
-                    let _ = vt.feed_str(cont);
-                    let _ = w.feed_str(cont);
+                    let la = vt.feed_str(cont).lines;
+                    let lb = w.feed_str(cont).lines;
+                    if la != lb {
+                        return Some(format!("{} , {} , {}: the continuation reports changed lines {:?} instead of {:?}", esc(f[a]), esc(cmd), esc(f[b]), la, lb));
+                    }
                     if obs_full(&vt) != obs_full(&w) || vt.dump() != w.dump() {
                         return Some(format!("{} , {} , {}: later input is understood differently", esc(f[a]), esc(cmd), esc(f[b])));
                     }
@@ -702,6 +713,77 @@ fn small_parameters_every_shape(ctx: &Ctx, rep: &mut Report) {
     }
 }
 
+/// DCS headers, systematically: first parameter 0..=9 (and none), each intermediate, every
+/// final byte, with payloads that look like data for a report or a setting (digits, `/`, `;`)
+/// and each terminator - through the bare parser with the continuation, and the digits-only
+/// ones through a terminal (tab stops, modes and the dump stay as they are).
+fn dcs_headers(ctx: &Ctx, rep: &mut Report) {
+    use rayon::prelude::*;
+    let mut heads: Vec<String> = vec![];
+    for p in ["", "0", "1", "2", "3", "4", "5", "6", "7", "8", "9", "1;2", "=1", "=2", "?1", ">1"] {
+        let mut inters: Vec<String> = vec!["".into()];
+        for i in 0x20u8..=0x2f {
+            inters.push((i as char).to_string());
+        }
+        for it in inters {
+            for fin in 0x40u8..=0x7e {
+                heads.push(format!("{}{}{}", p, it, fin as char));
+            }
+        }
+    }
+    let payloads = ["", "3", "3/5", "9/17/25", "1;2", "m", "0m", "q#1"];
+    let bad: Vec<String> = heads
+        .par_iter()
+        .filter_map(|h| {
+            for pay in payloads {
+                for (intro, term) in [("\x1bP", "\x1b\\"), ("\u{90}", "\u{9c}")] {
+                    let s = format!("{}{}{}{}", intro, h, pay, term);
+                    if let Err(e) = parser_inert(&s) {
+                        return Some(format!("{}: {}", esc(&s), e));
+                    }
+                }
+            }
+            // through a terminal (one spelling, the data-like payloads)
+            let r = crate::engine::guarded(|| {
+                for pay in ["3", "3/5", "1;2"] {
+                    let mut vt = build_vt(20, 3, None);
+                    let _ = vt.feed_str("ab\x1b[2;3H");
+                    let _ = vt.feed_str("");
+                    let before = (obs_full(&vt), vt.dump(), vt.verif_state().tabs);
+                    let s = format!("\u{90}{}{}\u{9c}", h, pay);
+                    let c = vt.feed_str(&s).lines;
+                    let after = (obs_full(&vt), vt.dump(), vt.verif_state().tabs);
+                    if !c.is_empty() || after != before {
+                        return Some(format!("{}: changed lines {:?}, dump {} -> {}, tab stops {:?} -> {:?}", esc(&s), c, esc(&before.1), esc(&after.1), before.2, after.2));
+                    }
+                    let la = vt.feed_str("\tx\r\ny").lines;
+                    let mut w = build_vt(20, 3, None);
+                    let _ = w.feed_str("ab\x1b[2;3H");
+                    let _ = w.feed_str("");
+                    let lb = w.feed_str("\tx\r\ny").lines;
+                    if la != lb || obs_full(&vt) != obs_full(&w) {
+                        return Some(format!("{}: what follows is handled differently (changed lines {:?} vs {:?})", esc(&s), la, lb));
+                    }
+                }
+                None
+            });
+            match r {
+                Ok(x) => x,
+                Err(p) => Some(format!("DCS {}: panic: {}", h, p)),
+            }
+        })
+        .collect();
+    let n = heads.len() as u64 * (payloads.len() as u64 * 2 + 3);
+    rep.evaluations += n;
+    rep.traces_validated += n;
+    rep.parts.push(json!({"part":"dcs-headers","headers":heads.len(),"payloads":payloads.len(),"inputs":n,"violating":bad.len()}));
+    println!("part dcs-headers: {} headers x {} payloads x 2 spellings (+3 through a terminal), {} violating", heads.len(), payloads.len(), bad.len());
+    if let Some(d) = bad.first() {
+        emit_violation(ctx, rep, "C20", json!({"part":"dcs-headers","oracle":"parser-inert","observed":d}));
+        rep.violations += bad.len() as u64 - 1;
+    }
+}
+
 pub fn run(ctx: &Ctx) -> Report {
     let mut rep = Report::new();
     let sys = make(ctx.tier);
@@ -710,6 +792,7 @@ pub fn run(ctx: &Ctx) -> Report {
     scalars_in_sequences(ctx, &mut rep);
     foreign_pairs(ctx, &mut rep);
     small_parameters_every_shape(ctx, &mut rep);
+    dcs_headers(ctx, &mut rep);
     // parser-level oracle once per inert input (independent of the seed)
     let mut pbad = 0;
     for i in &sys.inert {
@@ -740,6 +823,11 @@ pub fn run(ctx: &Ctx) -> Report {
 }
 
 pub fn replay(ctx: &Ctx, v: &Value) -> bool {
+    if v["part"] == "dcs-headers" {
+        let mut rep = Report::new();
+        dcs_headers(ctx, &mut rep);
+        return rep.violations > 0;
+    }
     if v["part"] == "foreign-sequence-pairs" || v["part"] == "small-parameters-every-shape" {
         let mut rep = Report::new();
         let c2 = Ctx { id: ctx.id.clone(), tier: Tier::Quick, seed: 0, start: ctx.start, known: ctx.known.clone(), replay_dir: ctx.replay_dir.clone() };
